@@ -753,6 +753,16 @@ func c10(c *Ctx) {
 				}
 			}
 		})
+		// ... and nothing else is ever appended: every append in the function adds one tag under a "not seen" test
+		eachInstr(us, func(in ssa.Instruction) {
+			cl, ok := in.(*ssa.Call)
+			if !ok || !isCall(cl, "builtin append") {
+				return
+			}
+			els := varargElems(cl.Call.Args[1])
+			okOne := len(els) == 1 && missKnown(cl.Block(), els[0])
+			r.Check("uniqueTagsWithSeen:every-append-guarded", okOne, cl.Pos(), "tags are added one at a time, each only when it is not in the seen set (a wholesale append skips the duplicate / dropped-tag test): append("+exprString(cl.Call.Args[0], 0)+", "+exprString(cl.Call.Args[1], 0)+")")
+		})
 		r.Check("uniqueTagsWithSeen:marks-kept-tags", okMark, us.Pos(), "a tag of the metric that is kept is recorded as seen (so later duplicates are removed)")
 		r.Check("uniqueTagsWithSeen:adds-unseen-static-tags", okApp, us.Pos(), "a static tag is appended only when it was not seen (neither present nor dropped)")
 		// NewTagHandler de-duplicates the static tags
